@@ -16,7 +16,8 @@ open IceModel.AgentCore IceModel.Sys2 IceProofs.Sys2Run IceProofs.Agent IceProof
 abbrev Nomination := Nat × Nat × Nat
 
 structure Hist where
-  /-- nominations issued by A (`RenominateCandidate` not refused), oldest first -/
+  /-- nominations issued by A — `RenominateCandidate` not refused, and the automatic check of A's controlling selector
+  (`issuesOf`: what the step appends to A's ghost log) —, oldest first -/
   issued : List Nomination := []
   /-- the nominations of A whose success response A has processed (transaction matched, pair found), oldest first -/
   answered : List Nomination := []
@@ -33,7 +34,7 @@ def answeredNom (a : Agent) (ev : Ev) : Option Nomination :=
 /-- history after agent `X` (`false` = A, `true` = B) executes `ev` in state `a` -/
 def hstep (h : Hist) (X : Bool) (a : Agent) (ev : Ev) : Hist :=
   if X then { h with accepted := (acceptAt a ev).orElse fun _ => h.accepted }
-  else { h with issued := h.issued ++ (issueOf a ev).toList,
+  else { h with issued := h.issued ++ issuesOf a ev,
                 answered := h.answered ++ (answeredNom a ev).toList }
 
 /-- the agent events of one system event -/
